@@ -9,4 +9,5 @@ pub mod registry;
 
 pub mod c02_fuse;
 pub mod c08_scalar;
+pub mod c_scalar;
 pub mod c20_filters;
